@@ -462,6 +462,8 @@ class PyvcExecutor(StmtMixin, Executor):
             v = args[0]
             if isinstance(v, Obj):
                 return FuncRef(v.cls)
+            if hasattr(v, "pytype"):
+                return v.pytype(self, st)          # model object that knows its (callable) class
             return Opaque("type")
         if n == "callable":
             return isinstance(args[0], (Fn, BoundMethod, Closure, FuncRef))
